@@ -27,7 +27,7 @@ TRUSTED = [
     'generate/_flatten/__getstate__/__setstate__), directives.py (if/for/with/choose/when/otherwise/strip), '
     'filters/i18n.py (Translator.__call__ / extract SUB handling, i18n:domain/comment/ctxt) as a hand-written Lean heap '
     'machine; tied by footprint snapshots and step-by-step comparison on generated templates',
-    'the step model covers a fragment (no py:def/match/attrs/content-with-markup, no i18n:msg/choose, no includes, '
+    'the step model covers a fragment (no py:match/attrs/interpolated attributes, no i18n:msg/choose, no includes, '
     'identity catalogue); outside it only the footprint claim and the oracle on the real code are checked',
     'thread part: interleaving model at next() granularity (theorems) and line granularity (prepare race, settrace '
     'scheduler); byte-code level preemption, the GIL and atomicity of built-in container operations are assumed',
